@@ -1,6 +1,8 @@
 import IbModel.Proofs.Sampling
 import IbModel.Proofs.SamplingKeyed
 import IbModel.Proofs.SamplingTies
+import IbModel.Proofs.SamplingPlan
+import IbModel.Model.Closures
 import IbModel.Driver.D14
 /-!
 # C14 — reservoir sampling: right size, real elements only, reproducible, mode-stable
@@ -17,6 +19,22 @@ partition restarts the same SplitMix64 stream. `seq_ne_par` (global) and `keyed_
 flattened forms (`keyed_…`, `filter_…`, `flat_…`) are the parts of the claim that do hold (`…_partial`).
 `sampleParts_*` state size and sub-multiset for an ARBITRARY list of partitions (empty and skewed ones, as a
 `filter` upstream produces them); `sampleFlat*` are the flattened entry point `sample_reservoir`.
+
+Round 3: (a) `cutSizes_*`, `samplePreParts_*`, `sampleKeyedPreParts_*` — the driver evaluates the partitions the real
+split produced, with any stateless element-wise op (`map` / `filter` / `flat_map`) upstream; (b) the UN-lifted keyed
+plan a join side runs (`sampleKeyedUnlifted_*`): there every partition count gives the sequential per-key sample
+(`reservoir_unlifted_eq_seq`), so the keyed negation `keyed_seq_ne_par` is a statement about the LIFTED plan only;
+(c) `execSeq_/execPar_/runSubPar_…Chain` — the pipeline definitions are `Engine.execSeq/execPar/runSubPar` on the
+chains the builders insert, after `Planner.optimise`; `vecSplit_eq_closures`; (d) `prioBits_strictMono`,
+`totalCmp_prio` (the integer priority of the model and the stored `f64` order alike), `merge_k_align_noop`,
+`mergeMaps_lookup_congr` / `lookup_ignores_entry_order` (hash order is unobservable per key),
+`sample_depends_on_feeding_order` (negation of "depends on the input multiset only": known finding
+`C14-sample-after-barrier-not-reproducible`).
+NOT proved (stated here in full): tree-shape independence for in-order leaves,
+    ∀ t₁ t₂, t₁.leafList = t₂.leafList → sampleOf next k s0 t₁ = sampleOf next k s0 t₂
+(it needs the characterisation "live items = the k largest under (priority, seq, in-order position)"); the
+correspondence checks it exhaustively for every tree over ≤ 3 leaves / n ≤ 4 (7 thorough) and on left-comb /
+balanced / right-comb trees over 4 leaves of 63–65 rows and 70 leaves of 2 rows.
 -/
 namespace IB.Sampling
 
@@ -371,10 +389,6 @@ theorem sampleFlat_submultiset [DecidableEq α] (next : σ → Nat × σ) (k : N
 
 section keyed
 variable {κ : Type} [DecidableEq κ]
-
-/-- per-key sampling over an **arbitrary** list of partitions (rows in map order) -/
-def sampleKeyedParts {A O : Type} (c : Combiner α A O) (ps : List (List (κ × α))) : List (κ × O) :=
-  mergeMaps c (ps.map (localPairs c))
 
 theorem sampleKeyedSeq_eq_parts {A O : Type} (c : Combiner α A O) (rows : List (κ × α)) :
     sampleKeyedSeq c rows = sampleKeyedParts c [rows] := rfl
@@ -955,6 +969,443 @@ example : ((0 : Nat), [0, 1, 2]) ∈ sampleKeyedSeq (reservoirSM 3 42) [(0, 0), 
 example : sampleKeyedSeq (reservoirSM 1 42) [((5 : Nat), (1 : Nat)), (5, 2)] ≠
     sampleKeyedPar (reservoirSM 1 42) 2 [(5, 1), (5, 2)] :=
   keyed_seq_ne_par_of_first_prio_gt smNextPrio (seedState 42) 5 1 2 (by decide) (by decide)
+
+/-! ## round 3 (a): the partitions actually cut; any stateless element-wise op in front of the sample -/
+
+/-- the driver cuts the request's rows by the chunk sizes the real split reported: the pieces always concatenate
+    to the rows and have exactly the reported sizes … -/
+theorem cutSizes_spec {β : Type} (xs : List β) (sz : List Nat) (ps : List (List β))
+    (h : cutSizes xs sz = some ps) : ps.flatten = xs ∧ ps.map List.length = sz :=
+  cutSizes_sound sz xs ps h
+
+/-- … and when the real split cuts the way `vecSplit` is modelled, the driver's partitions ARE `partsOf n xs`,
+    i.e. its answers are `samplePar` / `sampleKeyedPar` / `sampleFilterPar` … of the theorems above -/
+theorem cutSizes_partsOf {β : Type} (n : Nat) (xs : List β) :
+    cutSizes xs ((partsOf n xs).map List.length) = some (partsOf n xs) := by
+  have := cutSizes_flatten_lengths (partsOf n xs)
+  rwa [partsOf_flatten] at this
+
+/-- sequential mode is the one-partition case -/
+theorem sampleParts_single {A O : Type} (c : Combiner α A O) (xs : List α) : sampleParts c [xs] = sampleSeq c xs := rfl
+
+/-- `filter p` in front of the sample is the `flat_map` form the driver evaluates -/
+theorem sampleFilterPar_eq_pre {A O : Type} (c : Combiner α A O) (n : Nat) (p : α → Bool) (xs : List α) :
+    sampleFilterPar c n p xs = samplePreParts c (filterG p) (partsOf n xs) := by
+  unfold sampleFilterPar samplePreParts
+  congr 1
+  exact List.map_congr_left (fun q _ => filter_eq_flatMap p q)
+
+theorem sampleFilterSeq_eq_pre {A O : Type} (c : Combiner α A O) (p : α → Bool) (xs : List α) :
+    sampleFilterSeq c p xs = samplePreParts c (filterG p) [xs] := by
+  simp [sampleFilterSeq, samplePreParts, sampleParts, sampleSeq, filter_eq_flatMap]
+
+/-- **Size with ANY stateless element-wise op (`map`, `filter`, `flat_map`) upstream, any partition list**:
+    `min k` of the number of rows the op hands to the sampler -/
+theorem samplePreParts_size {β : Type} (next : σ → Nat × σ) (k : Nat) (s0 : σ) (g : β → List α)
+    (ps : List (List β)) :
+    (samplePreParts (reservoir next k s0) g ps).length = min k (ps.flatten.flatMap g).length := by
+  unfold samplePreParts
+  rw [sampleParts_size, flatten_map_flatMap]
+
+/-- **Sub-multiset** of the rows the op hands to the sampler -/
+theorem samplePreParts_submultiset [DecidableEq α] {β : Type} (next : σ → Nat × σ) (k : Nat) (s0 : σ)
+    (g : β → List α) (ps : List (List β)) (x : α) :
+    (samplePreParts (reservoir next k s0) g ps).count x ≤ (ps.flatten.flatMap g).count x := by
+  unfold samplePreParts
+  have := sampleParts_submultiset next k s0 (ps.map (List.flatMap g)) x
+  rwa [flatten_map_flatMap] at this
+
+/-- flattened entry point with a `filter` upstream (what the driver answers for `gflat` + filter) -/
+theorem sampleFlatFilter_size (next : σ → Nat × σ) (k : Nat) (s0 : σ) (n : Nat) (p : α → Bool) (xs : List α) :
+    (flattenGlobal [sampleFilterSeq (reservoir next k s0) p xs]).length = min k (xs.filter p).length ∧
+    (flattenGlobal [sampleFilterPar (reservoir next k s0) n p xs]).length = min k (xs.filter p).length := by
+  simp only [flattenGlobal, List.flatMap_cons, List.flatMap_nil, List.append_nil]
+  exact ⟨sampleFilterSeq_size next k s0 p xs, sampleFilterPar_size next k s0 n p xs⟩
+
+theorem sampleFlatFilter_submultiset [DecidableEq α] (next : σ → Nat × σ) (k : Nat) (s0 : σ) (n : Nat)
+    (p : α → Bool) (xs : List α) (x : α) :
+    (flattenGlobal [sampleFilterSeq (reservoir next k s0) p xs]).count x ≤ (xs.filter p).count x ∧
+    (flattenGlobal [sampleFilterPar (reservoir next k s0) n p xs]).count x ≤ (xs.filter p).count x := by
+  simp only [flattenGlobal, List.flatMap_cons, List.flatMap_nil, List.append_nil]
+  exact ⟨sampleFilterSeq_submultiset next k s0 p xs x, sampleFilterPar_submultiset next k s0 n p xs x⟩
+
+section keyedPre
+variable {κ : Type} [DecidableEq κ]
+
+theorem sampleKeyedFilterPar_eq_pre {A O : Type} (c : Combiner α A O) (n : Nat) (p : κ × α → Bool)
+    (rows : List (κ × α)) :
+    sampleKeyedFilterPar c n p rows = sampleKeyedPreParts c (filterG p) (partsOf n rows) := by
+  unfold sampleKeyedFilterPar sampleKeyedPreParts sampleKeyedParts
+  congr 2
+  exact List.map_congr_left (fun q _ => filter_eq_flatMap p q)
+
+/-- per key with ANY stateless op upstream, any partition list: size -/
+theorem sampleKeyedPreParts_size {β : Type} (next : σ → Nat × σ) (k : Nat) (s0 : σ) (g : κ × β → List (κ × α))
+    (ps : List (List (κ × β))) (key : κ) (s : List α)
+    (h : (key, s) ∈ sampleKeyedPreParts (reservoir next k s0) g ps) :
+    s.length = min k (valuesOf key (ps.flatten.flatMap g)).length := by
+  have := keyed_sample_size next k s0 (ps.map (List.flatMap g)) key s h
+  rwa [flatten_map_flatMap] at this
+
+theorem sampleKeyedPreParts_submultiset [DecidableEq α] {β : Type} (next : σ → Nat × σ) (k : Nat) (s0 : σ)
+    (g : κ × β → List (κ × α)) (ps : List (List (κ × β))) (key : κ) (s : List α)
+    (h : (key, s) ∈ sampleKeyedPreParts (reservoir next k s0) g ps) (x : α) :
+    s.count x ≤ (valuesOf key (ps.flatten.flatMap g)).count x := by
+  have := keyed_sample_submultiset next k s0 (ps.map (List.flatMap g)) key s h x
+  rwa [flatten_map_flatMap] at this
+
+/-- per key with a `filter` upstream, sequential mode (missing in round 2) -/
+theorem sampleKeyedFilterSeq_size (next : σ → Nat × σ) (k : Nat) (s0 : σ) (p : κ × α → Bool)
+    (rows : List (κ × α)) (key : κ) (s : List α)
+    (h : (key, s) ∈ sampleKeyedFilterSeq (reservoir next k s0) p rows) :
+    s.length = min k (valuesOf key (rows.filter p)).length :=
+  sampleKeyedSeq_size next k s0 (rows.filter p) key s h
+
+theorem sampleKeyedFilterSeq_submultiset [DecidableEq α] (next : σ → Nat × σ) (k : Nat) (s0 : σ)
+    (p : κ × α → Bool) (rows : List (κ × α)) (key : κ) (s : List α)
+    (h : (key, s) ∈ sampleKeyedFilterSeq (reservoir next k s0) p rows) (x : α) :
+    s.count x ≤ (valuesOf key (rows.filter p)).count x :=
+  sampleKeyedSeq_submultiset next k s0 (rows.filter p) key s h x
+
+/-- **hash order does not matter** (1): with pairwise different keys (a `HashMap`), a lookup does not depend on
+    the order of the entries -/
+theorem lookup_ignores_entry_order {β : Type} (key : κ) {m m' : List (κ × β)} (hp : m.Perm m')
+    (hnd : (m.map Prod.fst).Nodup) : lookupK key m = lookupK key m' :=
+  lookupK_perm key hp hnd
+
+/-- **hash order does not matter** (2): the keyed merge closure iterates every partition's `HashMap` in an
+    arbitrary order; a key's result depends on the partitions' maps only through their lookups of that key, so
+    re-ordering the entries of any partition's map (1) changes no key's result -/
+theorem mergeMaps_lookup_congr {A O : Type} (c : Combiner α A O) (key : κ) (parts parts' : List (List (κ × A)))
+    (hl : parts.map (lookupK key) = parts'.map (lookupK key))
+    (hnd : ∀ m ∈ parts, (m.map Prod.fst).Nodup) (hnd' : ∀ m ∈ parts', (m.map Prod.fst).Nodup) :
+    lookupK key (mergeMaps c parts) = lookupK key (mergeMaps c parts') := by
+  have hf : parts.filterMap (lookupK key) = parts'.filterMap (lookupK key) := by
+    have h1 : ∀ l : List (List (κ × A)), l.filterMap (lookupK key) = (l.map (lookupK key)).filterMap id := by
+      intro l; rw [List.filterMap_map]; rfl
+    rw [h1, h1, hl]
+  unfold mergeMaps mergeMapsAcc
+  rw [lookupK_map, lookupK_map, lookupK_mergeFold c key parts [] hnd, lookupK_mergeFold c key parts' [] hnd', hf]
+
+end keyedPre
+
+section unlifted
+variable {κ : Type} [DecidableEq κ]
+
+theorem foldl_snoc_eq {β : Type} : ∀ (xs acc : List β), xs.foldl (fun l v => l ++ [v]) acc = acc ++ xs
+  | [], acc => by simp
+  | x :: xs, acc => by simp [foldl_snoc_eq xs]
+
+/-- `group_by_key`'s accumulation over a merge tree is the concatenation of the leaves -/
+theorem eval_listCombiner : ∀ (t : Tree α), t.eval (listCombiner α) = t.leaves
+  | .leaf xs => by
+    show xs.foldl (fun l v => l ++ [v]) [] = xs
+    rw [foldl_snoc_eq]; rfl
+  | .node l r => by
+    simp only [Tree.eval, Tree.leaves, eval_listCombiner l, eval_listCombiner r]
+    rfl
+
+/-- **`group_by_key` over any partition list**: a key is listed iff it occurs, with ALL its values in input order -/
+theorem gbkParts_lookup (key : κ) (ps : List (List (κ × α))) :
+    lookupK key (gbkParts ps) =
+      if (valuesOf key ps.flatten).isEmpty then none else some (valuesOf key ps.flatten) := by
+  unfold gbkParts
+  rw [keyed_lookup]
+  split
+  · rfl
+  · rw [eval_listCombiner, keyTree_leaves]; rfl
+
+theorem gbkParts_keys_nodup (ps : List (List (κ × α))) : ((gbkParts ps).map Prod.fst).Nodup :=
+  keyed_keys_nodup (listCombiner α) ps
+
+/-- **The un-lifted plan** (`GroupByKey` barrier, then `local_groups`): for every combiner, every partition list and
+    every key, the entry is `finish(merge(create(), build_from_group(all the key's values in input order)))` -/
+theorem sampleKeyedUnlifted_lookup {A O : Type} (c : Combiner α A O) (key : κ) (ps : List (List (κ × α))) :
+    lookupK key (sampleKeyedUnlifted c ps) =
+      if (valuesOf key ps.flatten).isEmpty then none
+      else some (c.finish (c.merge c.create (c.build (valuesOf key ps.flatten)))) := by
+  unfold sampleKeyedUnlifted mergeMaps mergeMapsAcc
+  rw [lookupK_map, lookupK_mergeFold c key _ [] (by
+    intro m hm
+    simp only [List.mem_singleton] at hm
+    subst hm
+    exact nodup_keys_localGroups c _)]
+  simp only [List.filterMap_cons, List.filterMap_nil, lookupK_localGroups c key _ (gbkParts_keys_nodup ps),
+    gbkParts_lookup]
+  by_cases he : (valuesOf key ps.flatten).isEmpty = true
+  · simp [he, lookupK]
+  · simp [he, lookupK]
+
+theorem sampleKeyedUnlifted_keys_nodup {A O : Type} (c : Combiner α A O) (ps : List (List (κ × α))) :
+    ((sampleKeyedUnlifted c ps).map Prod.fst).Nodup := by
+  unfold sampleKeyedUnlifted mergeMaps mergeMapsAcc
+  rw [List.map_map]
+  exact nodup_keys_mergeFold c _ [] (by simp)
+
+/-- **On the un-lifted plan the per-key sample IS mode-stable**: whatever the partitioning, every key's entry equals
+    the sequential one (`build_from_group` = the fold, as for `PriorityReservoir`). This is the plan a JOIN side
+    runs (`chain_from` takes the chain literally), so `sample_values_reservoir*(..).join_*(..)` does not show the
+    known finding, while the same entry point collected directly (lifted plan) does (`keyed_seq_ne_par`). -/
+theorem sampleKeyedUnlifted_lookup_eq_seq {A O : Type} (c : Combiner α A O)
+    (hb : ∀ xs, c.build xs = c.foldAdd c.create xs) (key : κ) (ps : List (List (κ × α))) :
+    lookupK key (sampleKeyedUnlifted c ps) = lookupK key (sampleKeyedSeq c ps.flatten) := by
+  rw [sampleKeyedUnlifted_lookup, sampleKeyedSeq_eq_parts, keyed_lookup]
+  simp only [List.flatten_cons, List.flatten_nil, List.append_nil]
+  split
+  · rfl
+  · rename_i hne
+    congr 2
+    have hk : keyParts key [ps.flatten] = [valuesOf key ps.flatten] := by
+      unfold keyParts
+      simp only [List.map_cons, List.map_nil, List.filter_cons, List.filter_nil]
+      simp [hne]
+    simp [keyTree, hk, combTree, Tree.eval, hb]
+
+/-- … in particular for the reservoir, every generator, seed, `k`, partition count -/
+theorem reservoir_unlifted_eq_seq (next : σ → Nat × σ) (k : Nat) (s0 : σ) (n : Nat) (rows : List (κ × α)) (key : κ) :
+    lookupK key (sampleKeyedUnlifted (reservoir next k s0) (partsOf n rows)) =
+      lookupK key (sampleKeyedSeq (reservoir next k s0) rows) := by
+  have := sampleKeyedUnlifted_lookup_eq_seq (reservoir next k s0) (fun _ => rfl) key (partsOf n rows)
+  rwa [partsOf_flatten] at this
+
+/-- size per key on the un-lifted plan, any partition list -/
+theorem sampleKeyedUnlifted_size (next : σ → Nat × σ) (k : Nat) (s0 : σ) (ps : List (List (κ × α)))
+    (key : κ) (s : List α) (h : (key, s) ∈ sampleKeyedUnlifted (reservoir next k s0) ps) :
+    s.length = min k (valuesOf key ps.flatten).length := by
+  have hl := lookupK_of_mem_nodup key s _ (sampleKeyedUnlifted_keys_nodup _ ps) h
+  rw [sampleKeyedUnlifted_lookup_eq_seq _ (fun _ => rfl)] at hl
+  exact sampleKeyedSeq_size next k s0 ps.flatten key s (mem_of_lookupK key s _ hl)
+
+theorem sampleKeyedUnlifted_submultiset [DecidableEq α] (next : σ → Nat × σ) (k : Nat) (s0 : σ)
+    (ps : List (List (κ × α))) (key : κ) (s : List α)
+    (h : (key, s) ∈ sampleKeyedUnlifted (reservoir next k s0) ps) (x : α) :
+    s.count x ≤ (valuesOf key ps.flatten).count x := by
+  have hl := lookupK_of_mem_nodup key s _ (sampleKeyedUnlifted_keys_nodup _ ps) h
+  rw [sampleKeyedUnlifted_lookup_eq_seq _ (fun _ => rfl)] at hl
+  exact sampleKeyedSeq_submultiset next k s0 ps.flatten key s (mem_of_lookupK key s _ hl) x
+
+/-- a key is listed on the un-lifted plan iff it occurs in the input -/
+theorem sampleKeyedUnlifted_key_mem {A O : Type} (c : Combiner α A O) (key : κ) (ps : List (List (κ × α))) :
+    key ∈ (sampleKeyedUnlifted c ps).map Prod.fst ↔ key ∈ ps.flatten.map Prod.fst := by
+  have h1 := lookupK_eq_none_iff key (sampleKeyedUnlifted c ps)
+  have h2 := valuesOf_eq_nil_iff key ps.flatten
+  rw [sampleKeyedUnlifted_lookup] at h1
+  constructor
+  · intro h
+    apply Classical.byContradiction
+    intro hn
+    have : valuesOf key ps.flatten = [] := h2.mpr hn
+    exact (h1.mp (by simp [this])) h
+  · intro h
+    apply Classical.byContradiction
+    intro hn
+    have h3 := h1.mpr hn
+    split at h3
+    · rename_i he
+      exact (h2.mp (List.isEmpty_iff.mp he)) h
+    · simp at h3
+
+end unlifted
+
+/-- the witness of `keyed_seq_ne_par` on the un-lifted plan (2 partitions): the sequential output -/
+theorem keyed_unlifted_eq_seq_witness :
+    sampleKeyedUnlifted (reservoirSM 1 42) [[(0, 0), (1, 5), (0, 1)], [(1, 6), (0, 2), (1, 7)]] =
+      sampleKeyedSeq (reservoirSM 1 42) ([(0, 0), (1, 5), (0, 1), (1, 6), (0, 2), (1, 7)] : List (Nat × Nat)) := by
+  decide
+
+/-! ## round 3 (c): the pipeline definitions ARE the engine (`Engine.execSeq` / `execPar` / `runSubPar`) run on the
+chains the builders insert, after the planner (`Planner.optimise`) -/
+
+section engine
+variable {K V A O : Type} [DecidableEq K]
+
+theorem mapM_map_some {X Y Z : Type} (f : X → Y) (g : Y → Option Z) (h : X → Z) (hg : ∀ x, g (f x) = some (h x)) :
+    ∀ (l : List X), (l.map f).mapM g = some (l.map h)
+  | [] => rfl
+  | x :: l => by
+    rw [List.map_cons, List.mapM_cons, hg x, mapM_map_some f g h hg l]
+    rfl
+
+omit [DecidableEq K] in
+theorem gMerge_locals (c : Combiner V A O) (ps : List (List V)) :
+    (ps.map (fun l => gLocal (K := K) c (.rows l))).mapM SPart.getAcc = some (ps.map (c.foldAdd c.create)) :=
+  mapM_map_some (fun l => gLocal (K := K) c (.rows l)) SPart.getAcc (c.foldAdd c.create) (fun _ => rfl) ps
+
+theorem cvMerge_locals (c : Combiner V A O) (ps : List (List (K × V))) :
+    (ps.map (fun l => cvLocalPairs c (.krows l))).mapM SPart.getKAccs = some (ps.map (localPairs c)) :=
+  mapM_map_some (fun l => cvLocalPairs (A := A) (O := O) c (.krows l)) SPart.getKAccs (localPairs c) (fun _ => rfl) ps
+
+theorem gbkMerge_locals (ps : List (List (K × V))) :
+    (ps.map (fun l => gbkLocal (A := A) (O := O) (.krows l))).mapM SPart.getKGroups =
+      some (ps.map (localPairs (listCombiner V))) :=
+  mapM_map_some (fun l => gbkLocal (A := A) (O := O) (.krows l)) SPart.getKGroups (localPairs (listCombiner V)) (fun _ => rfl) ps
+
+/-- `sample_reservoir_vec(..).collect_seq()` IS `exec_seq` on the chain as built -/
+theorem execSeq_globalChain (c : Combiner V A O) (xs : List V) :
+    execSeq (globalChain (K := K) c xs) = .ok (.out [sampleSeq c xs]) := by
+  simp [execSeq, globalChain, rowsSource, globalNode, stepSeq, stepSubSeq, need, List.foldlM, sampleSeq,
+    gLocal, gMerge, gFinish, SPart.getAcc, bind, Except.bind, pure, Except.pure]
+
+/-- `sample_reservoir_vec(..).collect_par(_, Some n)` IS `exec_par` on the chain as built: fan-out `None`, one
+    `merge` of all per-partition accumulators (none when there is one partition), `finish` -/
+theorem execPar_globalChain (c : Combiner V A O) (concat : List (SPart K V A O) → SPart K V A O) (n : Nat)
+    (xs : List V) : execPar concat (globalChain c xs) n = .ok (.out [samplePar c n xs]) := by
+  simp only [execPar, globalChain, rowsSource, globalNode, List.foldlM, stepPar, stepSubPar, reduceGlobal,
+    reduceGlobalWith, bind, Except.bind, pure, Except.pure, List.map_map, List.length_map]
+  unfold samplePar partsOf
+  generalize vecSplit xs (clampParts n xs.length) = ps
+  have hl := gMerge_locals (K := K) c
+  match ps with
+  | [] => simp [coalesce, mergeAll, gMerge, gFinish]
+  | [p] => simp [coalesce, mergeAll, gLocal, gFinish]
+  | p :: q :: rest =>
+    have h2 := hl (p :: q :: rest)
+    have : (List.map (gLocal c ∘ SPart.rows) (p :: q :: rest)) =
+        (p :: q :: rest).map (fun l => gLocal (K := K) c (.rows l)) := rfl
+    simp only [List.length_cons, this, gMerge, h2]
+    simp [coalesce, gFinish]
+
+/-- the planner rewrites the keyed chain `[Source, GroupByKey, CombineValues{local_groups}]` to
+    `[Source, CombineValues{local_pairs only}]` (`lift_gbk_then_combine`) -/
+theorem optimise_keyedChain (c : Combiner V A O) (rows : List (K × V)) :
+    optimise (keyedChain c rows) = [krowsSource rows, .combineValues (cvLocalPairs c) none (cvMerge c)] := by
+  simp [optimise, keyedChain, krowsSource, gbkNode, liftedNode, fuse, reorder, liftGbk, dropMid]
+
+/-- `sample_values_reservoir_vec(..).collect_par(_, Some n)` IS `exec_par` on the PLANNED chain -/
+theorem execPar_keyedChain (c : Combiner V A O) (concat : List (SPart K V A O) → SPart K V A O) (n : Nat)
+    (rows : List (K × V)) :
+    execPar concat (optimise (keyedChain c rows)) n = .ok (.kout (sampleKeyedPar c n rows)) := by
+  rw [optimise_keyedChain]
+  simp only [execPar, krowsSource, List.foldlM, stepPar, stepSubPar, Option.getD, bind, Except.bind, pure,
+    Except.pure, List.map_map, coalesce]
+  have : ∀ ps : List (List (K × V)), List.map (cvLocalPairs c ∘ SPart.krows (A := A) (O := O)) ps =
+      ps.map (fun l => cvLocalPairs c (.krows l)) := fun _ => rfl
+  simp only [this, cvMerge, cvMerge_locals]
+  rfl
+
+/-- … and sequentially -/
+theorem execSeq_keyedChain (c : Combiner V A O) (rows : List (K × V)) :
+    execSeq (optimise (keyedChain c rows)) = .ok (.kout (sampleKeyedSeq c rows)) := by
+  rw [optimise_keyedChain]
+  simp [krowsSource, execSeq, List.foldlM, stepSeq, stepSubSeq, need, bind, Except.bind, pure, Except.pure,
+    cvLocalPairs, cvMerge, SPart.getKAccs, sampleKeyedSeq]
+
+/-- a JOIN side runs the chain as built (no planner pass): `run_subplan_par` on `[Source, GroupByKey,
+    CombineValues{local_groups}]` is the un-lifted per-key sample over the partitions cut -/
+theorem runSubPar_keyedChain (c : Combiner V A O) (n : Nat) (rows : List (K × V)) :
+    runSubPar (keyedChain c rows) n = .ok [.kout (sampleKeyedUnlifted c (partsOf n rows))] := by
+  simp only [runSubPar, keyedChain, krowsSource, gbkNode, liftedNode, List.foldlM, stepSubPar, Option.getD, bind,
+    Except.bind, pure, Except.pure, List.map_map, List.map_cons, List.map_nil]
+  have : ∀ ps : List (List (K × V)), List.map (gbkLocal ∘ SPart.krows (A := A) (O := O)) ps =
+      ps.map (fun l => gbkLocal (.krows l)) := fun _ => rfl
+  simp only [this, gbkMerge, gbkMerge_locals, cvLocalGroups, cvMerge, List.mapM_cons, List.mapM_nil,
+    SPart.getKAccs, bind, Option.bind, pure]
+  rfl
+
+/-- … and `run_subplan_seq` -/
+theorem runSubSeq_keyedChain (c : Combiner V A O) (rows : List (K × V)) :
+    runSubSeq (keyedChain c rows) = .ok (.kout (sampleKeyedUnlifted c [rows])) := by
+  simp [runSubSeq, keyedChain, krowsSource, gbkNode, liftedNode, List.foldlM, stepSubSeq, need, bind, Except.bind,
+    pure, Except.pure, gbkLocal, gbkMerge, cvLocalGroups, cvMerge, SPart.getKGroups, SPart.getKAccs,
+    sampleKeyedUnlifted, gbkParts, sampleKeyedParts]
+
+end engine
+
+/-- C14's `vecSplit` is the `VecOpsImpl::split` model of the shared closure layer (`Model/Closures.lean`) -/
+theorem vecSplit_eq_closures (xs : List Val) (n : Nat) : vecSplit xs n = IB.vecSplit xs n := rfl
+
+/-! ## round 3 (d): the `f64` priority, the `k` alignment, order dependence -/
+
+/-- **The integer the model orders by and the `f64` the code stores are ordered alike.** `m ↦ prioBits m` (the bit
+    pattern of `(m as f64)·2^-53`, `0.0` replaced by `from_bits(1)`) is strictly increasing on the 53-bit draws … -/
+theorem prioBits_strictMono {m m' : Nat} (h : m < m') (hb : m' < 2 ^ 53) : prioBits m < prioBits m' := by
+  have h0' : m' ≠ 0 := by omega
+  obtain ⟨l', u'⟩ := scaled_bounds h0' hb
+  by_cases h0 : m = 0
+  · subst h0
+    simp only [prioBits, ↓reduceIte, h0']
+    omega
+  · have hbm : m < 2 ^ 53 := by omega
+    obtain ⟨l, u⟩ := scaled_bounds h0 hbm
+    simp only [prioBits, h0, h0', ↓reduceIte]
+    have hle : Nat.log2 m ≤ Nat.log2 m' := by
+      apply Classical.byContradiction
+      intro hn
+      have h1 : 2 ^ (Nat.log2 m' + 1) ≤ 2 ^ Nat.log2 m := Nat.pow_le_pow_right (by decide) (by omega)
+      have h2 := Nat.log2_self_le h0
+      have h3 : m' < 2 ^ (Nat.log2 m' + 1) := Nat.lt_log2_self
+      omega
+    rcases Nat.lt_or_eq_of_le hle with hlt | heq
+    · have : (Nat.log2 m + 971) * 2 ^ 52 ≤ (Nat.log2 m' + 970) * 2 ^ 52 := Nat.mul_le_mul_right _ (by omega)
+      have e1 : (Nat.log2 m + 971) * 2 ^ 52 = (Nat.log2 m + 970) * 2 ^ 52 + 2 ^ 52 := by
+        rw [show Nat.log2 m + 971 = (Nat.log2 m + 970) + 1 from rfl, Nat.add_mul, Nat.one_mul]
+      omega
+    · rw [heq] at l u ⊢
+      have hpos : 0 < 2 ^ (52 - Nat.log2 m') := Nat.pow_pos (by decide)
+      have := Nat.mul_lt_mul_of_pos_right h hpos
+      omega
+
+/-- … every stored priority is a positive finite float below 1.0 (sign bit clear, pattern in `[1, bits(1.0))`) … -/
+theorem prioBits_range {m : Nat} (hb : m < 2 ^ 53) : 1 ≤ prioBits m ∧ prioBits m < 0x3FF0000000000000 := by
+  by_cases h0 : m = 0
+  · subst h0; simp [prioBits]
+  · obtain ⟨l, u⟩ := scaled_bounds h0 hb
+    have he := log2_le_52 h0 hb
+    simp only [prioBits, h0, ↓reduceIte]
+    have : (Nat.log2 m + 970) * 2 ^ 52 ≤ 1022 * 2 ^ 52 := Nat.mul_le_mul_right _ (by omega)
+    omega
+
+/-- … and on such patterns `f64::total_cmp` (= `OrdF64::cmp`, compared with the real code by the `ORDF64`
+    requests) is the order of the patterns: together, `lexLt` on `(m, seq, idx)` is the heap's order -/
+theorem totalCmp_of_lt {a b : Nat} (hb : b < 2 ^ 63) (h : a < b) : totalCmp a b = .lt := by
+  have ha : a < 2 ^ 63 := by omega
+  simp only [totalCmp, totalKey, ha, hb, ↓reduceIte]
+  exact Nat.compare_eq_lt.mpr (by omega)
+
+theorem totalCmp_prio {m m' : Nat} (h : m < m') (hb : m' < 2 ^ 53) :
+    totalCmp (prioBits m) (prioBits m') = .lt := by
+  have := prioBits_range hb
+  exact totalCmp_of_lt (by omega) (prioBits_strictMono h hb)
+
+/-- the draws really are below `2^53` -/
+theorem smNextPrio_lt (s : UInt64) : (smNextPrio s).1 < 2 ^ 53 := by
+  simp only [smNextPrio]
+  have h := UInt64.toNat_lt ((smNextU64 s).1)
+  rw [UInt64.toNat_shiftRight]
+  simp only [UInt64.reduceToNat, Nat.reduceMod, Nat.shiftRight_eq_div_pow]
+  omega
+
+/-- witnesses (corpus of the harness): the smallest draw maps to the smallest subnormal, `m = 1` to `2^-53`, the
+    largest draw to `1 − 2^-53` -/
+theorem prioBits_witnesses :
+    prioBits 0 = 1 ∧ prioBits 1 = 0x3CA0000000000000 ∧ prioBits (2 ^ 52) = 0x3FE0000000000000 ∧
+      prioBits (2 ^ 53 - 1) = 0x3FEFFFFFFFFFFFFF := by
+  refine ⟨rfl, ?_, ?_, ?_⟩ <;> simp [prioBits, Nat.log2] <;> decide
+
+/-- **the `k` alignment of `merge` (`acc.k = acc.k.max(other.k)`) is unobservable from every entry point**: all
+    accumulators of one run come from ONE combiner, so both sides carry the same `k` (`Inv.k_eq`) and the line is
+    the identity — for every merge any tree performs -/
+theorem merge_k_align_noop {k : Nat} {xs ys : List α} {a o : PRAcc σ α} (ha : Inv k xs a) (ho : Inv k ys o) :
+    max a.k o.k = a.k := by
+  rw [ha.k_eq, ho.k_eq]; simp
+
+/-- **The sample depends on the ORDER in which the sampler is fed, not only on the multiset of the input**
+    (documented: "Deterministic … for a given seed and input multiset"): for every generator whose first priority
+    beats its second, `[a, b]` yields `a` and `[b, a]` yields `b`. After a hash-ordered barrier
+    (`group_by_key`, joins) the feeding order changes from run to run, so such a sample is not reproducible
+    (known finding `C14-sample-after-barrier-not-reproducible`; requests `SAMPLEGBK`). -/
+theorem sample_depends_on_feeding_order (next : σ → Nat × σ) (s0 : σ) (a b : α) (hab : a ≠ b)
+    (h : (next (next s0).2).1 < (next s0).1) :
+    [a, b].Perm [b, a] ∧ sampleSeq (reservoir next 1 s0) [a, b] ≠ sampleSeq (reservoir next 1 s0) [b, a] := by
+  refine ⟨List.Perm.swap b a [], ?_⟩
+  rw [seq_pair_of_first_prio_gt next s0 a b h, seq_pair_of_first_prio_gt next s0 b a h]
+  intro e
+  exact hab (by simpa using e)
+
+/-- concrete: seed 42, keys `0,1` fed as `[0,1]` → `[0]`, fed as `[1,0]` → `[1]` -/
+theorem sample_depends_on_feeding_order_witness :
+    sampleParts (reservoirSM 1 42) [[(0 : Nat), 1]] = [0] ∧ sampleParts (reservoirSM 1 42) [[(1 : Nat), 0]] = [1] := by
+  decide
 
 end IB.Sampling
 
